@@ -103,3 +103,21 @@ LEVEL["C08"] = ("Writer/reader sibling agreement for every column type (factory 
 NOTE["C08"] = ("Not decided: behaviour at the 256/65536/2^31 thresholds, pickle/zlib round-trips, mmap. The vector-length "
                "column is written as 'i' and read as 'I' (same width; benign for non-negative lengths) and is accepted "
                "as byte-compatible.")
+LEVEL["C06"] = ("Value-flow rules over the merge path: docmap creation and use, base document number captured before "
+                "the per-document copy and passed with the docmap to the postings copy (single- and multi-process), "
+                "merge policies as exclusive partitions of the segment list, one offsets recurrence (over ALL documents) "
+                "and one bisect locator shared by every multi-segment view, groups never split across sub-writers, per-row "
+                "copy of lengths/vectors/columns.")
+NOTE["C06"] = ("Not decided: equality of the logical dumps themselves, score equality across layouts, external-sort "
+               "correctness (C20).")
+LEVEL["C07"] = ("Deletion filtering at every posting source and iterator (C01-R3), deletions recorded on the writer's own "
+                "unpickled segments and published only by TOC.write (cancel never reaches it), update = per-unique-field "
+                "lookup, delete all hits, then one add, delete_by_query deletes and counts exactly the yielded documents, "
+                "writer offsets over all segments (C06-R3), resolved calls on the deleted-document set (C10-R5).")
+NOTE["C07"] = ("Not decided: unique-key lookup correctness on analysed fields, InverseMatcher's arithmetic when the child "
+               "is exhausted next to a deleted document (value-level; reported by a seeding agent, see notes).")
+LEVEL["C18"] = ("Layering (raw file-system mutation only in the storage layer), interface completeness of every Storage "
+                "and every writer front-end, and CFG ordering of BufferedWriter.commit (underlying writer committed on "
+                "every path, RAM reader swapped under one lock) and MpWriter._commit (flush, sentinels, join, collect, "
+                "publish), plus the multi-process merge renumbering (C06-R1/R4).")
+NOTE["C18"] = ("Not decided: equality of dumps across configurations, queue timing, a sub-writer result lost on queue.Empty.")
